@@ -66,4 +66,16 @@ CHECK_TEXT = {
         "level_note": "Reach depends on the Go scheduler actually producing the stop-before-select interleavings (GOMAXPROCS 1..8, yields, up to 64 connections per bubble).",
         "design_ref": "DESIGN.md 6 C14",
     },
+    "C12": {
+        "technique": "recorded concurrent write histories on the real websocket connection + linearizability check (direct order/prefix oracle, porcupine cross-check), panic/hang detection",
+        "level_text": "No panic, no hang and prefix-linearizable delivery on every recorded history (3k quick / 120k thorough), with the closing event placed throughout the writers' progress.",
+        "level_note": "net.Pipe transport (synchronous, queue of one); real-time scheduling decides which interleavings occur; hang verdict needs two matching goroutine dumps, otherwise inconclusive.",
+        "design_ref": "DESIGN.md 6 C12, 3.5",
+    },
+    "C13": {
+        "technique": "fault injection at the k-th read/write of a wrapped net.Conn under virtual time + runtime monitor of reports, Close() calls and pump goroutines",
+        "level_text": "Every injected single fault, peer close and local close of the explored sessions was reported (or not) as stated and released both pumps and the socket within 75 virtual seconds.",
+        "level_note": "Fault positions are sampled per session (k ranges over the session's reads/writes); deciding readers react like ShipConnection; passive reader logged only.",
+        "design_ref": "DESIGN.md 6 C13",
+    },
 }
